@@ -80,7 +80,7 @@ func runC15(c *Ctx) {
 	ss := coord.Sessions()
 	sess := ss[len(ss)-1]
 	time.Sleep(30 * time.Millisecond)
-	nStreams := c.Budget(200, 6000)
+	nStreams := c.Budget(200, 20000)
 	msgID := int32(100000)
 	statuses := []int{int(branch.BranchStatusPhasetwoCommitted), int(branch.BranchStatusPhasetwoCommitFailedRetryable),
 		int(branch.BranchStatusPhasetwoRollbacked), int(branch.BranchStatusPhasetwoRollbackFailedRetryable),
